@@ -241,6 +241,11 @@ def make_element(lines, how):
     return Deb822CommentElement([Deb822CommentToken(x) for x in lines])
 
 
+def bad_element_lines(rng, last):
+    """lines of an ill-formed element: well-formed lines (0..2) followed by a last line without newline"""
+    return ["# well-formed line %d\n" % i for i in range(rng.choice([0, 0, 1, 2]))] + list(last)
+
+
 keep_alive = []      # scratch documents stay alive for the whole run (leak probe: nothing may depend on their death)
 
 EXC = {"ValueError": "ValueError", "AmbiguousDeb822FieldKeyError": "Ambiguous", "KeyError": "KeyError"}
@@ -369,7 +374,7 @@ class World(object):
             self.grab(e)
             return {"field_comment": e}
         if k == "bad":
-            return {"field_comment": make_element(list(bad_lines), 1)}
+            return {"field_comment": make_element(bad_element_lines(rng, bad_lines), 1)}
         raise core.MachineryError("unknown comment mode %r" % (k,))
 
     def is_detached(self, h):
@@ -438,7 +443,7 @@ class World(object):
                 if got is not kv:
                     raise core.MachineryError("get_kvpair_element returned another object than iteration")
             if c["x"] == "bad":
-                kv.comment_element = make_element(list(bad_lines), 1)
+                kv.comment_element = make_element(bad_element_lines(rng, bad_lines), 1)
                 return
             self.grab(kv.comment_element)
             kv.comment_element = None if c["x"] == "none" else self.reg[c["m"]["h"]]
@@ -512,8 +517,11 @@ class World(object):
         raise core.MachineryError("unknown op %r" % (op,))
 
     # ---- comparison with a model world (texts by injective concretization, objects by identity)
-    def diff(self, w):
-        """None when the real objects are the model world w, else a message"""
+    def diff(self, w, adopt=False):
+        """None when the real objects are the model world w, else a message.  adopt: the handle numbering of w is taken
+        over first (an alternative outcome in which the caller's element was not used)"""
+        if adopt:
+            self.nh = w["nh"]
         d = self.diff2(w)
         return None if d is None else d[1]
 
